@@ -58,6 +58,8 @@ def regenerate(names=None):
         if old != text:
             target.write_text(text)
             info["changed"] = True
+        if getattr(fn, "info", None):
+            info["details"] = fn.info
         if pinned.exists():
             info["differs_from_pinned"] = pinned.read_text() != text
         res[name] = info
